@@ -23,7 +23,7 @@ DECIDING = ["add.exact", "subtract.exact", "td_add.exact", "td_sub.exact", "op.e
 FLOORS = {"quick": {"add.exact": 50000, "inverse": 20000, "op.exact": 5000},
           "thorough": {"add.exact": 500000, "inverse": 200000, "op.exact": 50000}}
 REQUIRED_HOOKS = ["DateTime.add", "DateTime.subtract"]      # the private _add_timedelta_/_subtract_timedelta hooks add reach, the operators are judged at the boundary
-TECHNIQUE = "runtime contracts on add/subtract/timedelta paths with an integer-microsecond instant oracle and tz-database rendering"
+TECHNIQUE = "runtime contracts on add/subtract/timedelta paths with an integer-microsecond instant oracle and tz-database rendering; shards run under rotating process-local zones (TZ) with naive values around those zones' transitions"
 LEVEL_TEXT = ("every observed call of DateTime.add/subtract/_add_timedelta_/_subtract_timedelta with fixed-length units is "
               "judged against exact integer-us instants and the tz database; held on the executions observed, "
               "which enumerate every transition of every zone")
